@@ -16,7 +16,9 @@ THEOREMS = ["Mpir.AliasMem.rootrem_ptr_spec", "Mpir.AliasMem.rootrem_exceptions"
             "Mpir.AliasMem.mpf_div_ptr_spec", "Mpir.AliasMem.mpf_div_by_zero", "Mpir.AliasMem.mpf_mul_ptr_spec", "Mpir.AliasMem.mpf_sqrt_ptr_spec",
             "Mpir.AliasMem.mpf_div_ui_ptr_spec", "Mpir.AliasMem.mpf_sqrt_div_ui_exceptions",
             "Mpir.AliasMem.powm_ptr_spec", "Mpir.AliasMem.powm_ui_ptr_spec", "Mpir.AliasMem.addmul_ptr_spec", "Mpir.AliasMem.submul_ptr_spec",
-            "Mpir.AliasMem.mpz_sqrt_ptr_spec", "Mpir.AliasMem.mpz_lcm_ptr_spec", "Mpir.AliasMem.mpz_invert_ptr_spec"]
+            "Mpir.AliasMem.mpz_sqrt_ptr_spec", "Mpir.AliasMem.mpz_lcm_ptr_spec", "Mpir.AliasMem.mpz_invert_ptr_spec",
+            "Mpir.AliasMem.mpz_root_ptr_spec", "Mpir.AliasMem.mpz_remove_ptr_spec", "Mpir.AliasMem.mpz_bin_ui_ptr_spec_partial",
+            "Mpir.AliasMem.mpf_floor_ceil_trunc_ptr_spec", "Mpir.AliasMem.mpf_2exp_ptr_spec", "Mpir.AliasMem.mpf_ui_div_ptr_spec"]
 PINS = [("mpz/mul.c", None), ("gmp-mparam.h", "MUL_KARATSUBA_THRESHOLD"), ("mpz/gcdext.c", None), ("mpz/powm.c", None), ("mpz/powm_ui.c", None),
         ("mpz/aorsmul.c", None), ("mpz/aorsmul_i.c", None), ("mpz/sqrt.c", None), ("mpz/lcm.c", None), ("mpz/invert.c", None), ("mpf/div.c", None), ("mpf/mul.c", None), ("mpf/sqrt.c", None), ("mpf/div_ui.c", None),
         ("mpz/root.c", None), ("mpz/remove.c", None), ("mpz/bin_ui.c", None), ("mpf/ceilfloor.c", None), ("mpf/trunc.c", None),
@@ -29,6 +31,7 @@ ASSUMPTIONS = ["pointer-level models: the mpn callees (mpn_mul, mpn_mul_1, mpn_t
                "contract allows is not; TMP areas carved out of one TMP block in the C (mpf/div.c:114-119) are separate blocks in the model",
                "mpz_powm / mpz_powm_ui / mpz_remove / mpz_bin_ui / mpz_invert: the result VALUE is that of the value-level models (Powm.mpz_powm, Numth.mpz_remove, "
                "Numth.mpz_bin_ui, Gcd.mpz_invert: C08, C07, C11); the pointer-level theorem is about which block is read after which was written",
+               "mpz_bin_ui: the theorem is partial (`mpz_bin_ui_ptr_spec_partial`): the ASSERT SIZ (r) > 0 of the DIVIDE() macro along the run is a (decidable) hypothesis",
                "mpf pointer model: the block length is kept in the model (C does not store it); object invariant PREC + 1 <= block length (mpf_init2 allocates "
                "PREC + 1 limbs, mpf_set_prec_raw only lowers PREC); mpf_sqrt needs 1 <= PREC (the library never makes a smaller one)"]
 
